@@ -29,6 +29,10 @@ build() { # build <variant>
   case "$variant" in
     std)  "$GO" build -modfile="$MODFILE" -tags verif -o "$out" ./cmd/vcheck ;;
     race) "$GO" build -modfile="$MODFILE" -race -tags verif -o "$out" ./cmd/vcheck ;;
+    ovl|portable)
+      local od="$BIN/overlay-$variant-$(basename "$MODFILE" .mod)"
+      rm -rf "$od"; python3 "$VERIF/tools/mkoverlay.py" "$REPO" "$od" "$variant" >/dev/null || return 2
+      "$GO" build -modfile="$MODFILE" -tags verif -overlay "$od/overlay-$variant.json" -o "$out" ./cmd/vcheck ;;
     *) echo "unknown variant $variant" >&2; return 2 ;;
   esac || { echo "ERROR build of variant $variant failed" >&2; return 2; }
   echo "$out"
@@ -38,6 +42,8 @@ case "${1:-}" in
   build)
     build std >/dev/null || exit 2
     build race >/dev/null || exit 2
+    build ovl >/dev/null || exit 2
+    build portable >/dev/null || exit 2
     exit 0 ;;
   replay)
     exe=$(build std) || exit 2
@@ -50,4 +56,13 @@ prop=$1; tier=${2:-quick}; shift; shift 2>/dev/null
 variant=std
 exe=$(build $variant) || exit 2
 export VERIF_EXE="$exe"
+if [ "$prop" = "C10" ]; then
+  rexe=$(build race) || exit 2
+  export VERIF_EXE_RACE="$rexe"
+fi
+if [ "$prop" = "C13" ]; then
+  oexe=$(build ovl) || exit 2
+  pexe=$(build portable) || exit 2
+  export VERIF_EXE_OVL="$oexe" VERIF_EXE_PORTABLE="$pexe"
+fi
 exec "$exe" "$prop" "$tier" "$@"
